@@ -190,7 +190,9 @@ pub fn run(ctx: &Ctx) -> PropReport {
     rep.push(grid(ctx, ctx.tier.pick(10, 60)));
     rep.push(run_sharded(ctx, "random", ctx.tier.pick(400_000, 5_000_000), random_strategy, |(n, s): &(String, StateSpec)| judge(n, s), |(n, s)| case_json(n, s)));
     rep.extra.insert("instructions".into(), json!(names()));
-    rep.push(crate::props::incontext::run(ctx, ctx.tier.pick(40_000, 600_000)));
+    for r in crate::props::incontext::run_all(ctx, ctx.tier.pick(40_000, 600_000)) {
+        rep.push(r);
+    }
     rep
 }
 
